@@ -318,7 +318,7 @@ def run(tier, replay=None):
     vlib.write_evidence("C19", tier, "model_checking", {
         "states": len(sem_in), "transitions": len(cases), "exhaustive": True,
         "traces_validated_against_impl": len(cases),
-        "programs": [q["name"] for q in progs], "edits_applied": len(cases), "edits_on_several_files": nmulti, "edit_kinds": kinds,
+        "programs": len(progs), "program_names": [q["name"] for q in progs], "edits_applied": len(cases), "edits_on_several_files": nmulti, "edit_kinds": kinds,
         "edited_programs_evaluated_by_tlc": len(todo), "semantics_wall_s": round(semres.wall, 1),
         "samples": [{"edit": cases[0]["id"], "flags": cases[0]["flags"]}], "known_findings_hit": hit,
     }, [
